@@ -466,6 +466,7 @@ def check_c04(ctx):
                            + bad, False, loc=C.loc(e.op), path=trace(evs))
         ctx.ob('C04.O5', CLS + '.' + which, 'no step other than the publish writes, removes, truncates or '
                'chmods the destination on any of %d paths' % len(paths), not seen, loc=C.enter.loc if which == '__enter__' else C.exit.loc)
+    check_foreign_part(ctx, C, 'C04.O1x')
     # T17 atomic_save delegates
     f = prog.func(MOD + '.atomic_save')
     rets = [n for n in ast.walk(f.node) if isinstance(n, ast.Return)]
@@ -544,6 +545,17 @@ def derives_from_dest(w, op, expr, folder):
     if is_dest(expr):
         return False, 'part path equals the destination itself'
     return False, 'not derived from the destination: %s' % txt(expr)
+
+
+def check_foreign_part(ctx, C, rule):
+    """A part file whose exclusive creation failed belongs to another writer: never removed by the cleanup."""
+    for p, evs in zip(C.enter_paths, C.enter_evs):
+        failed = [e for e in evs if e.kind == 'CREATE' and e.raised]
+        if failed:
+            later = [e for e in evs if e.kind == 'UNLINK' and e.extra == 'self.part_path' and e.idx > failed[0].idx]
+            ctx.ob(rule, CLS + '._open_part_file', 'when os.open(part_path, O_EXCL) itself fails (the part file belongs to another '
+                   'writer, possibly mid-write) the cleanup does not unlink it', not later, loc=C.loc(failed[0].op),
+                   path=trace(evs) if later else None)
 
 
 # ---------------------------------------------------------------------------
@@ -636,6 +648,7 @@ def check_c05(ctx):
         for e in refus:
             ctx.ob('C05.R3r', CLS + '.setup', 'refusal raises OSError before creating anything',
                    e.extra in ('OSError', 'FileExistsError', 'IOError'), loc=C.loc(e.op), detail='raises %s' % e.extra)
+    check_foreign_part(ctx, C, 'C05.R4b')
     # R5 no-clobber publication ---------------------------------------------------
     for p, evs in zip(C.exit_paths, C.exit_evs):
         for e in evs:
